@@ -194,7 +194,7 @@ class PDFPage:
         try:
             return parse_rect(resolve1(val) for val in resolve1(value))
 
-        except (PDFValueError, TypeError):
+        except (PDFValueError, TypeError, KeyError):
             log.warning("Invalid MediaBox in /Page, defaulting to US Letter")
             return us_letter
 
@@ -206,7 +206,7 @@ class PDFPage:
         try:
             return parse_rect(resolve1(val) for val in resolve1(value))
 
-        except (PDFValueError, TypeError):
+        except (PDFValueError, TypeError, KeyError):
             log.warning("Invalid CropBox in /Page, defaulting to MediaBox")
             return mediabox
 
